@@ -140,11 +140,19 @@ func runC20(c c20Case) (c20Case, error) {
 	var failure error
 	measure := func(name string, f func() error) bool {
 		var ferr error
-		n := testing.AllocsPerRun(5, func() {
+		run := func() {
 			if err := f(); err != nil {
 				ferr = err
 			}
-		})
+		}
+		n := testing.AllocsPerRun(5, run)
+		// AllocsPerRun counts process-wide mallocs: re-measure before blaming the operation (a real
+		// allocation on the path shows up in every measurement, a background one does not).
+		for rep := 0; rep < 4 && n != 0 && ferr == nil; rep++ {
+			if n2 := testing.AllocsPerRun(5, run); n2 < n {
+				n = n2
+			}
+		}
 		if ferr != nil {
 			failure = fmt.Errorf("harness: operation %s failed: %w", name, ferr)
 			c.Op = name
@@ -283,7 +291,8 @@ func TestC20_Allocs(t *testing.T) {
 	rec.Note("rule", "generated well-formed messages: 0..16 attributes drawn from every supported setter (all address types incl. AddToAs, text up to the limits, ERROR-CODE, default-reason codes, UNKNOWN-ATTRIBUTES <= 20 types, raw) "+
 		"optionally followed by MESSAGE-INTEGRITY (keys 0..200 bytes incl. 63/64/65) and FINGERPRINT. The Message is first used for a strictly larger message of the same shape (+64 bytes). Oracle: testing.AllocsPerRun(5, op) == 0 for "+
 		"Build(pointer setters), Decode(data,m), Write, Message.Decode, CloneTo, Get/Contains/Attributes.Get/ForEach for every attribute type present, every typed getter whose attribute is present and valid (into a reused destination), "+
-		"MessageIntegrity.Check and Fingerprint.Check. One goroutine, non-race build. Non-trivial = >= 3 attributes including an IPv6 address or an integrity attribute, or key > 64 bytes; distinct by (setter kinds, size classes, key class).")
+		"MessageIntegrity.Check and Fingerprint.Check; plus destination reuse: an address getter (all seven forms) or the UNKNOWN-ATTRIBUTES getter whose destination has once held the larger form (IPv6 / longer list) "+
+		"must serve any generated alternation of smaller and larger values with zero allocations. One goroutine, non-race build. Non-trivial = >= 3 attributes including an IPv6 address or an integrity attribute, or key > 64 bytes; distinct by (setter kinds, size classes, key class).")
 	rec.Note("assumptions", []string{"'warm' = previously used for a larger message so that spare capacity exists (DESIGN D6)",
 		"UnknownAttributes.AddTo with more than 20 types is a documented allocation and is not generated", "operations must succeed: error paths may allocate"})
 	pbt.Check(t, rec, "allocs", evid.Pick(1500, 40000), func(rt *rapid.T) (any, error) {
@@ -317,5 +326,152 @@ func init() {
 		_, err := runC20(c)
 
 		return err
+	}
+}
+
+// ---- destination reuse across messages: "once the destination values have been used for a
+// message at least as large" - a destination that has held the larger form (IPv6, the longer
+// list) must serve any alternation of smaller and larger values without allocating.
+
+type c20Reuse struct {
+	Getter string   `json:"getter"`
+	Type   uint16   `json:"type,omitempty"`
+	IP4    hx       `json:"ip4,omitempty"`
+	IP6    hx       `json:"ip6,omitempty"`
+	Port   int      `json:"port,omitempty"`
+	Short  []uint16 `json:"short,omitempty"`
+	Long   []uint16 `json:"long,omitempty"`
+	Order  []int    `json:"order"` // sequence of 0 (small) / 1 (large) reads measured as one operation
+}
+
+func runC20Reuse(c c20Reuse) error {
+	build := func(o bop) (*stun.Message, error) {
+		b, err := startBuilder(bop{Kind: "start-build", Sub: []bop{{Kind: "tidset", TID: "0102030405060708090a0b0c"}, o}})
+		if err != nil {
+			return nil, err
+		}
+		m := new(stun.Message)
+
+		return m, stun.Decode(b.m.Raw, m)
+	}
+	var small, large *stun.Message
+	var err error
+	var get func(m *stun.Message) error
+	switch c.Getter {
+	case "unknown":
+		if small, err = build(bop{Kind: "unknown", Types: c.Short}); err != nil {
+			return err
+		}
+		if large, err = build(bop{Kind: "unknown", Types: c.Long}); err != nil {
+			return err
+		}
+		var dst stun.UnknownAttributes
+		get = func(m *stun.Message) error { return dst.GetFrom(m) }
+	default:
+		if small, err = build(bop{Kind: c.Getter, Type: c.Type, IP: c.IP4, Port: c.Port}); err != nil {
+			return err
+		}
+		if large, err = build(bop{Kind: c.Getter, Type: c.Type, IP: c.IP6, Port: c.Port}); err != nil {
+			return err
+		}
+		t := stun.AttrType(c.Type)
+		switch c.Getter {
+		case "xor":
+			d := new(stun.XORMappedAddress)
+			get = d.GetFrom
+		case "xoras":
+			d := new(stun.XORMappedAddress)
+			get = func(m *stun.Message) error { return d.GetFromAs(m, t) }
+		case "mapped":
+			d := new(stun.MappedAddress)
+			get = d.GetFrom
+		case "mappedas":
+			d := new(stun.MappedAddress)
+			get = func(m *stun.Message) error { return d.GetFromAs(m, t) }
+		case "alt":
+			d := new(stun.AlternateServer)
+			get = d.GetFrom
+		case "origin":
+			d := new(stun.ResponseOrigin)
+			get = d.GetFrom
+		case "other":
+			d := new(stun.OtherAddress)
+			get = d.GetFrom
+		default:
+			return fmt.Errorf("harness: unknown getter %q", c.Getter)
+		}
+	}
+	msgs := []*stun.Message{small, large}
+	// warm: the destination holds the larger form once
+	if err := get(large); err != nil {
+		return fmt.Errorf("harness: getter failed on the large message: %w", err)
+	}
+	var ferr error
+	run := func() {
+		for _, i := range c.Order {
+			if e := get(msgs[i&1]); e != nil {
+				ferr = e
+			}
+		}
+	}
+	n := testing.AllocsPerRun(5, run)
+	for rep := 0; rep < 4 && n != 0 && ferr == nil; rep++ {
+		if n2 := testing.AllocsPerRun(5, run); n2 < n {
+			n = n2
+		}
+	}
+	if ferr != nil {
+		return fmt.Errorf("harness: getter failed: %w", ferr)
+	}
+	if n != 0 {
+		return fmt.Errorf("%s into a destination that already held the larger value performs %v heap allocations per pass over the read sequence %v (0 = smaller value, 1 = larger)", c.Getter, n, c.Order)
+	}
+
+	return nil
+}
+
+func TestC20_DestinationReuse(t *testing.T) {
+	if os.Getenv("VERIF_RACE") != "" {
+		t.Skip("allocation counts are not meaningful under the race detector")
+	}
+	rec := evid.For("C20")
+	pbt.Check(t, rec, "reuse", evid.Pick(1500, 30000), func(rt *rapid.T) (any, error) {
+		c := c20Reuse{Getter: rapid.SampledFrom([]string{"xor", "xoras", "mapped", "mappedas", "alt", "origin", "other", "unknown"}).Draw(rt, "getter")}
+		if c.Getter == "unknown" {
+			c.Short = rapid.SliceOfN(rapid.Uint16(), 0, 6).Draw(rt, "short")
+			c.Long = rapid.SliceOfN(rapid.Uint16(), 7, 20).Draw(rt, "long")
+		} else {
+			c.Type = addType(rt)
+			c.IP4 = toHex(rapid.SliceOfN(rapid.Byte(), 4, 4).Draw(rt, "ip4"))
+			ip6 := rapid.SliceOfN(rapid.Byte(), 16, 16).Draw(rt, "ip6")
+			ip6[0] = 0x20
+			c.IP6 = toHex(ip6)
+			c.Port = genPort(rt)
+		}
+		c.Order = rapid.SliceOfN(rapid.IntRange(0, 1), 2, 8).Draw(rt, "order")
+		switches := 0
+		for i := 1; i < len(c.Order); i++ {
+			if c.Order[i] != c.Order[i-1] {
+				switches++
+			}
+		}
+		rec.Case("reuse:"+c.Getter, evid.NewH().Str(fmt.Sprint(c)).Sum(), switches >= 2, func() any { return c })
+		var err error
+		if perr := pbt.Safely(func() { err = runC20Reuse(c) }); perr != nil {
+			err = perr
+		}
+
+		return c, err
+	})
+}
+
+func init() {
+	replayers["C20/reuse"] = func(raw json.RawMessage) error {
+		var c c20Reuse
+		if err := json.Unmarshal(raw, &c); err != nil {
+			return err
+		}
+
+		return runC20Reuse(c)
 	}
 }
